@@ -43,6 +43,9 @@ inductive TC where
   | unescape (key : Bytes)
   | redactEmail (key label : Bytes)
   | parseTime (key label : Bytes)
+  | regex (key : Bytes) (patternOK : Bool) (captures : List Bytes)
+      -- `replace` (no captures used) / `extract`: the pattern is given by whether Go's regexp compiles it and by its
+      -- named captures (empty names omitted)
 
 /-! ### verification -/
 
@@ -77,6 +80,7 @@ def verifyStep (sch : Schema) : TC → Bool
   | .unescape key => keyVerify sch key
   | .redactEmail key label => keyVerify sch key && !label.isEmpty
   | .parseTime key label => keyVerify sch key && !label.isEmpty
+  | .regex key patternOK captures => keyVerify sch key && patternOK && captures.all (fun n => (locate sch n).isSome)
 def verifySteps (sch : Schema) : List TC → Bool
   | [] => true
   | s :: r => verifyStep sch s && verifySteps sch r
@@ -145,6 +149,10 @@ def constructStep (sch : Schema) (next : Nat) : TC → GoM (Step × Nat)
   | .unescape key => do return (.unescape (← mustLocate sch key), next)
   | .redactEmail key _ => do return (.redactEmail (← mustLocate sch key), next)
   | .parseTime key _ => do return (.parseTime (← mustLocate sch key), next)
+  | .regex key patternOK captures => do
+    if !patternOK then throw .explicit                 -- `regexp.MustCompile`
+    let ds ← keysConstruct sch captures                -- `MustCreateFieldLocator(name)` per named capture
+    return (.opaque (← mustLocate sch key) ds, next)
 def constructSteps (sch : Schema) (next : Nat) : List TC → GoM (List Step × Nat)
   | [] => .ok ([], next)
   | s :: r => do
